@@ -106,10 +106,13 @@ CONFIG = {
                        "first on ties; NaN iff the distance exceeds the last shell boundary, which is the same expression as "
                        "get_between_radii's last boundary of contract C16), the index composition (t*n_o + o)*n_b + b with NaN "
                        "propagation (get_full_assignments / _get_position_assignments), the second-molecule selection string, and the "
-                       "lemma nearest radius <=> containing shell. Bounded: direction and rotation assignment (cdist/argmin, principal "
-                       "axes, MDAnalysis) on continuous random placements against a brute-force oracle, margins excluded.",
+                       "lemma nearest radius <=> containing shell, and the direction assignment as wiring (_o_assignment_function: first argmin over "
+                       "the direction-grid rows of cdist(row, normalised centre of mass) with metric 'cos' / 'euclidean' by position mode; "
+                       "cdist and normalise_vectors uninterpreted). Bounded: direction and rotation assignment numerically (cdist/argmin, "
+                       "principal axes, MDAnalysis) on continuous random placements against a brute-force oracle, margins excluded.",
         "trusted_base": [NUMPY, "np.argmin returns the first index of a minimal element; np.linalg.norm = sqrt of the sum of squares",
-                         "ASSUMED callee contracts (bounded-checked): the per-frame MDAnalysis loops return one entry per frame"],
+                         "ASSUMED callee contracts (bounded-checked): the per-frame MDAnalysis loops return one entry per frame",
+                         "scipy cdist(A, B, metric) entry = a function of the two rows and the metric name; normalise_vectors of a (1,3) row (assumed)"],
         "assumptions": ["placements within the stated margins of a cell boundary are excluded",
                         "MDAnalysis `bynum a:b` is 1-based inclusive and ignores atoms beyond the last one"],
     },
